@@ -82,7 +82,7 @@ theorem edgeLogicle_strictMono (T M W p res n : ℝ) (hT : 0 < T) (hp : 0 < p) (
   simp only
   apply logicle_strictMono T M W p hT hp
   have hδ : 0 < M / (res - 1) := div_pos hM (by linarith)
-  have hstep : 0 < ((M + M / (res - 1) / 2) - (-(M / (res - 1) / 2))) / n := by
+  have hstep : 0 < ((M + M / (res - 1) / 2) - (-(M / (res - 1)) / 2)) / n := by
     apply div_pos _ hn; linarith
   nlinarith
 
@@ -92,7 +92,7 @@ theorem edgeLogicle_first_neg (T M W p res n : ℝ) (hT : 0 < T) (hp : 0 < p) (h
   unfold edgeLogicle
   simp only
   have hδ : 0 < M / (res - 1) := div_pos hM (by linarith)
-  have := (logicle_sign T M W p (-(M / (res - 1) / 2) + 0 * ((M + M / (res - 1) / 2 - -(M / (res - 1) / 2)) / n)) hT hp).1
+  have := (logicle_sign T M W p (-(M / (res - 1)) / 2 + 0 * ((M + M / (res - 1) / 2 - -(M / (res - 1)) / 2) / n)) hT hp).1
   apply this
   linarith
 
